@@ -261,7 +261,10 @@ def World.onObs1 (w : World) (toks : List String) : World :=
   let busy := w.inflight.contains (w.key p)
   let w := if busy then w else
     w.setDurable (w.key p) (iv ++ (w.durableOf (w.key p)).filter (fun n => !iv.contains n))
-  let (w, s) := if w.resync.contains (w.key p) || busy then
+  -- a log with missing ancestors (a fetch failed): the order in which the store handled the
+  -- progress events and the batch is the scheduler's, and the status depends on it: adopt it
+  let holes := !(w.entriesOf iv).all (fun e => e.next.all (fun h => iv.contains h))
+  let (w, s) := if w.resync.contains (w.key p) || busy || holes then
       let s' := { s with status := { progress := ist.1, max := ist.2 } }
       ({ w.setStore p s' with resync := w.resync.filter (· != w.key p) }, s')
     else (w, s)
@@ -437,6 +440,8 @@ def World.onDelivered (w : World) (toks : List String) : World :=
   let q := peerNum (toks.getD 1 "")
   let r := toks.getD 2 ""
   if r == "dropped" || r == "nosub" then w else
+  if toks.contains "unserved" then
+    w.fail "C12" "served" s!"peer {q}: the instance no longer takes messages from its direct channel (an earlier message stopped the goroutine that serves it)" else
   if arg toks "quiesce" != "true" then w.fail "C11" "quiesce" s!"peer {q} did not become quiescent after a delivered message" else w
 
 def World.onRestarted (w : World) (toks : List String) : World :=
